@@ -53,6 +53,8 @@ type peerOutgoingStream struct {
 	network.Stream
 	FirstMessage chan *RPC
 	Cancel       context.CancelFunc
+	// Queue is the outbound queue this stream's writer drains
+	Queue *rpcQueue
 }
 
 // PubSub is the implementation of the pubsub system.
@@ -986,6 +988,16 @@ func (p *PubSub) processLoop(ctx context.Context) {
 			q, ok := p.peers[pid]
 			if !ok {
 				p.logger.Warn("new stream for unknown peer", "peer", pid)
+				s.Cancel()
+				s.Reset()
+				continue
+			}
+
+			if s.Queue != nil && s.Queue != q {
+				// the death of this stream was handled before its arrival was: its
+				// queue is closed and the peer's current queue belongs to a
+				// respawned writer, whose own stream will be announced separately
+				p.logger.Debug("ignoring stale outbound stream", "peer", pid)
 				s.Cancel()
 				s.Reset()
 				continue
